@@ -369,7 +369,9 @@ def distributed_peer_lookup(eng: Engine, ck: Check, rule: str):
                         if lp2 is not None and isinstance(lp2.target, ast.Name) and lp2.target.id == n.value.id and chain_str(lp2.iter) == 'self.distributed_peers' and \
                                 lp2 in list(ancestors(r)) and any(conn_test(e, pol, n.value.id) for e, pol, _ in eng.guards_at(m, n)):
                             good = True
-        elif isinstance(v, ast.Call) and call_name(v) == 'next' and v.args and isinstance(v.args[0], ast.GeneratorExp) and len(v.args[0].generators) == 1:
+        vx = expand_aliases(m, v)
+        if not good and isinstance(vx, ast.Call) and call_name(vx) == 'next' and vx.args and isinstance(vx.args[0], ast.GeneratorExp) and len(vx.args[0].generators) == 1:
+            v = vx
             g = v.args[0].generators[0]
             if isinstance(g.target, ast.Name) and unparse(v.args[0].elt) == g.target.id and chain_str(g.iter) == 'self.distributed_peers':
                 good = any(conn_test(e, pol, g.target.id) for i_ in g.ifs for e, pol in split_conj(i_, True))
